@@ -61,6 +61,7 @@ class World:
         self.G = {i: 0 for i in range(n)}          # ghost generations
         self.prepares = []                          # (resource, what it saw)
         self.offered = {}                           # resource -> tag of the spec offered last
+        self.offered_version = {}
         self.spec_problems = []
         self.clock = FakeTime()
         self._saved = (cache.time, registry.time)
@@ -93,6 +94,7 @@ class World:
         tag = f"r{i}@v{v}:{sorted(deps)}"
         if sd is None or sd.resource_version != f"v{v}":
             self.offered[i] = tag            # a same-version offer is a cache hit: the earlier spec stays
+            self.offered_version[i] = f"v{v}"
         return await self.cache.prepare_and_cache(
             resource_class=Res, preparer=self.preparer,
             metadata={"name": rname(i), "resourceVersion": f"v{v}"}, spec={"deps": list(deps), "tag": tag})
@@ -150,6 +152,9 @@ class World:
                     probs.append(f"deleted r{i} still has a live monitor")
             else:
                 deps = sorted((sd.spec.get("deps") or []))
+                if sd.spec.get("tag") != self.offered.get(i) or self.offered_version.get(i) != sd.resource_version:
+                    probs.append(f"cached r{i} is {sd.resource_version} / {sd.spec.get('tag')} but the last effective "
+                                 f"offer was {self.offered_version.get(i)} / {self.offered.get(i)}")
                 if subs != deps:
                     probs.append(f"cached r{i} declared {deps} but is subscribed to {subs}")
                 if deps:
